@@ -241,7 +241,7 @@ def run(ctx, canary=False):
                 "non-trivial = distinct (instance, solver, iterations)" % ITERS)
     global BRUTE_CELLS
     BRUTE_CELLS = 6 if thorough else 4
-    cands = families(rng, 220 if thorough else 60)
+    cands = families(rng, 120 if thorough else 60)
     mc = os.path.join(ctx.work, "MC_Opt.tla")
     with open(mc, "w") as f:
         f.write("---- MODULE MC_Opt ----\nEXTENDS OptInstances\nMCInsts == %s\n====\n" % to_tla([tla_inst(i) for i in cands]))
@@ -262,7 +262,7 @@ def run(ctx, canary=False):
     ctx.extra["certified_by_family"] = fams
     if len(certified) < 8:
         raise MachineryError("too few certified instances: %d" % len(certified))
-    ncert = min(len(certified), 60) if thorough else 14
+    ncert = min(len(certified), 30) if thorough else 14
     pick = certified[:ncert]
     jobs, meta = [], []
     for inst, lstar in pick:
@@ -278,8 +278,8 @@ def run(ctx, canary=False):
         for solver in ("MD", rng.choice(["RDA", "IG"])):
             jobs.append((inst, solver, ITERS, "given", False, (K, S))); meta.append(("opt", scaled(inst, K, S), lstar * K * K / (S * S), solver, ITERS))
     # arbitrary noisy inputs, total given or estimated: decided by the gap certificate
-    arb = uncert[: (30 if thorough else 6)]
-    for k in range(40 if thorough else 8):
+    arb = uncert[: (15 if thorough else 6)]
+    for k in range(20 if thorough else 8):
         arb.append(E.gen_instance(rng, nattr=rng.choice([2, 3]), max_meas=4, zeros_prob=0.0, allow_empty=False,
                                   kinds=["identity", "none", "twice", "total", "stack", "id+total", "prefix"]))
     # chordless cycles of five and six attributes with noisy (mutually inconsistent) pair measurements: elimination needs
@@ -312,7 +312,7 @@ def run(ctx, canary=False):
     # a noisy chain over attributes of 2, 3, 4 and 5 values (total 100): well conditioned, the unmodified solvers meet the optimum
     # of an independent active-set solver to 1e-12; long accelerated runs make the potentials large, which is where message
     # arithmetic that is not stabilised slice by slice goes wrong
-    for _ in range(4 if thorough else 1):
+    for _ in range(2 if thorough else 1):
         inst = E.gen_instance(rng, nattr=4, max_meas=0, zeros_prob=0.0, allow_empty=True, sizes=[2, 3, 4, 5])
         a_ = inst["order"]
         sc_ = 100.0 / sum(inst["x"])
